@@ -118,13 +118,12 @@ def classify(vals, host, got):
 
 def run(ctx):
     # quick: ordered triples over labels {b, a-b}, ordered pairs over {a, b, a-b, ab}; thorough adds triples over {a, b, a-b}
-    # and {a, b, a-b, ab} and 3-label values over {b, a-b}
+    # and 3-label values over {b, a-b} (MC_DomainAcl_deep.cfg, triples over all four labels, is kept for manual runs: ~30 CPU-min)
     A.mc(ctx, 'MC_DomainAcl.tla', 'MC_DomainAcl_small.cfg', timeout=1500)
     A.mc(ctx, 'MC_DomainAcl.tla', 'MC_DomainAcl_pairs.cfg', timeout=1500)
     if ctx.thorough:
         A.mc(ctx, 'MC_DomainAcl.tla', 'MC_DomainAcl.cfg', timeout=3000)
         A.mc(ctx, 'MC_DomainAcl.tla', 'MC_DomainAcl_long.cfg', timeout=3000)
-        A.mc(ctx, 'MC_DomainAcl.tla', 'MC_DomainAcl_deep.cfg', timeout=6000)
     exe = A.build_driver(ctx)
     lines, nsmall = gen(ctx)
     ctx.log('design step passed; driver built; %d lists (%d exhaustive small-universe)' % (len(lines), nsmall))
